@@ -20,3 +20,7 @@ build_asan() { # optional: failure is not fatal, the part is reported inconclusi
   return 0
 }
 prepare_C08() { prepare_default && build_race; }
+prepare_C10() {
+  prepare_default && export VERIF_PLAIN_BIN=$CHECK_BIN && build_race || return 1
+  if [ "$MODE" = thorough ]; then build_asan; fi
+}
